@@ -762,11 +762,14 @@ def run(tier, replay=None):
                 "B: seeded random scaled-integer inputs through the real code; TraceCoarseGrain (file cursor = spec variable) "
                 "decides grid order, neighbour averages per frame, window length / centre / mean, and prints the expected blur terms. "
                 "distinct = replayed cases + accepted trace records with a non-empty selection / neighbour list.")
+    # "each grid point exactly once, x slowest" for ALL grid shapes: GridIndexLemma.tla, discharged by Apalache over
+    # unbounded integers (the index the library used before its repair must be refuted)
+    common.apalache_lemmas(chk, "GridIndexLemma", ["InRange", "Injective", "XSlowest"], ["WrongInjective"])
     chk.assumptions = ["float comparison at 1e-9 of values the spec gives exactly or as terms",
                        "a distance exactly equal to the cut-off may be counted or not (the statement does not say)",
                        "minimum-image ties of tilted cells that change the distance are skipped",
                        "number of reported windows T-w (code) or T-w+1 (all complete windows) both accepted",
-                       "window length asserted only for dyadic dt and period (float quotient exact)",
+                       "window length asserted where the floating-point quotient period/interval of the rendered arguments is exact (dyadic steps, and decimal steps whose quotient lands exactly on the integer); otherwise counted as a tie",
                        "a neighbour id listed twice counts twice; truncation to Nmax as specified by C05",
                        "rows of a neighbour-file frame may come in any order (the id column decides, C05)",
                        "float32 / complex64 inputs are compared at 2e-6 (results carry the input precision)"]
